@@ -499,7 +499,16 @@ func genSeq(r *lib.RNG) caseT {
 			}
 			out = append(out, fmt.Sprintf("CREATE %sINDEX %s ON %s (%s)", u, lib.Pick(r, idxNames), t.name, cols))
 		case 6:
-			out = append(out, fmt.Sprintf("DROP INDEX %s ON %s", lib.Pick(r, idxNames), t.name))
+			if r.Bool() && len(tabs) > 1 {
+				o := tabs[r.Intn(len(tabs))]
+				oc := col()
+				if len(o.cols) > 0 && r.Chance(4, 5) {
+					oc = lib.Pick(r, o.cols)
+				}
+				out = append(out, fmt.Sprintf("ALTER TABLE %s ADD CONSTRAINT f%d FOREIGN KEY (%s) REFERENCES %s (%s)", t.name, i, anyCol(), o.name, oc))
+			} else {
+				out = append(out, fmt.Sprintf("DROP INDEX %s ON %s", lib.Pick(r, idxNames), t.name))
+			}
 		case 7, 8:
 			var vs []string
 			for range t.cols {
@@ -626,6 +635,52 @@ func genIntroHint(r *lib.RNG) caseT {
 	return caseT{Kind: "seq", Stmts: out, Shape: "seq"}
 }
 
+// ---------- (e) JSON path functions x null / scalar members x out-of-range indexes ----------
+var jsonDocs = []string{`{"a": null}`, `{"a": 5}`, `{"a": "s"}`, `{"a": [1, null, {"b": null}]}`, `{"a": {"b": null}}`, `null`, `[null]`, `[]`, `{}`, `5`, `"x"`,
+	`{"a": [[], [null]]}`, `{"a": true}`}
+var jsonPaths = []string{"$.a[0]", "$.a[1]", "$.a[2]", "$.a[1].b", "$.a[2].b[1]", "$[0]", "$[1]", "$[1].a", "$.a.b[1]", "$.a.b.c", "$.a[last]", "$.a[last-3]", "$.a[0 to 2]",
+	"$.a[*]", "$.a[*].b[1]", "$**.b", "$**[1]", "$.a[1][0]", "$.a[4294967296]", "$", "$.a", "$.*[1]"}
+
+func genJSON(r *lib.RNG) caseT {
+	var out []string
+	n := r.Range(3, 6)
+	for i := 0; i < n; i++ {
+		d, p := q(lib.Pick(r, jsonDocs)), q(lib.Pick(r, jsonPaths))
+		p2 := q(lib.Pick(r, jsonPaths))
+		switch r.Intn(14) {
+		case 0:
+			out = append(out, fmt.Sprintf("SELECT JSON_EXTRACT(%s, %s)", d, p))
+		case 1:
+			out = append(out, fmt.Sprintf("SELECT JSON_EXTRACT(%s, %s, %s)", d, p, p2))
+		case 2:
+			out = append(out, fmt.Sprintf("SELECT JSON_CONTAINS_PATH(%s, %s, %s, %s)", d, lib.Pick(r, []string{"'one'", "'all'"}), p, p2))
+		case 3:
+			out = append(out, fmt.Sprintf("SELECT JSON_CONTAINS(%s, %s, %s)", d, q(lib.Pick(r, jsonDocs)), p))
+		case 4:
+			out = append(out, fmt.Sprintf("SELECT JSON_SET(%s, %s, 1), JSON_INSERT(%s, %s, 1), JSON_REPLACE(%s, %s, 1)", d, p, d, p, d, p))
+		case 5:
+			out = append(out, fmt.Sprintf("SELECT JSON_REMOVE(%s, %s)", d, p))
+		case 6:
+			out = append(out, fmt.Sprintf("SELECT JSON_LENGTH(%s, %s), JSON_DEPTH(%s), JSON_TYPE(JSON_EXTRACT(%s, %s))", d, p, d, d, p))
+		case 7:
+			out = append(out, fmt.Sprintf("SELECT JSON_KEYS(%s, %s)", d, p))
+		case 8:
+			out = append(out, fmt.Sprintf("SELECT JSON_SEARCH(%s, 'one', 's', NULL, %s)", d, p))
+		case 9:
+			out = append(out, fmt.Sprintf("SELECT JSON_ARRAY_APPEND(%s, %s, 1), JSON_ARRAY_INSERT(%s, %s, 1)", d, p, d, p))
+		case 10:
+			out = append(out, fmt.Sprintf("SELECT CAST(%s AS JSON)->%s, CAST(%s AS JSON)->>%s", d, p, d, p))
+		case 11:
+			out = append(out, fmt.Sprintf("SELECT JSON_VALUE(%s, %s), JSON_UNQUOTE(JSON_EXTRACT(%s, %s))", d, p, d, p))
+		case 12:
+			out = append(out, fmt.Sprintf("SELECT * FROM JSON_TABLE(%s, %s COLUMNS (x INT PATH %s)) AS jt", d, p, p2))
+		default:
+			out = append(out, fmt.Sprintf("SELECT JSON_OVERLAPS(%s, %s), JSON_MERGE_PATCH(%s, %s), JSON_MERGE_PRESERVE(%s, %s)", d, q(lib.Pick(r, jsonDocs)), d, q(lib.Pick(r, jsonDocs)), d, q(lib.Pick(r, jsonDocs))))
+		}
+	}
+	return caseT{Kind: "seq", Stmts: out, Shape: "seq"}
+}
+
 // ---------- child process for inputs that kill the process ----------
 func childMain(sqlText string) {
 	// an address-space limit and a small goroutine stack limit make the outcome independent of the machine:
@@ -729,6 +784,12 @@ func main() {
 			{Kind: "seq", Stmts: []string{"CREATE TABLE t (id INT PRIMARY KEY, a INT)", "UPDATE t SET @@session.sql_mode = 'x' WHERE id IN (SELECT id FROM t)"}},
 			{Kind: "seq", Stmts: []string{"CREATE TABLE t (id INT PRIMARY KEY, a INT, c INT)", "CREATE INDEX Iac ON t(a,c)", "INSERT INTO t VALUES (1,1,1)", "DROP INDEX Iac ON t", "INSERT INTO t VALUES (2,2,2)"}},
 			{Kind: "stmt", Shape: "corpus", SQL: "SELECT INTERVAL 1 DAY"},
+			{Kind: "seq", Stmts: []string{`SELECT JSON_EXTRACT('{"a": null}', '$.a[1]')`, `SELECT JSON_CONTAINS_PATH('{"a": null}', 'one', '$.a[1].b')`}},
+			{Kind: "seq", Stmts: []string{`SELECT JSON_EXTRACT('{"a": 5}', '$.a.b', '$.a')`, `SELECT JSON_SEARCH('null', 'one', 's', NULL, '$[1]')`,
+				`SELECT * FROM JSON_TABLE('{"a": null}', '$.a' COLUMNS (x INT PATH '$[1]')) AS jt`,
+				`SELECT * FROM JSON_TABLE('{"a": null}', '$.a[4294967296]' COLUMNS (x INT PATH '$.a[last-3]')) AS jt`}},
+			{Kind: "seq", Stmts: []string{"CREATE TABLE t3 (c1 BIGINT, c2 BIGINT, PRIMARY KEY (c1))", "CREATE UNIQUE INDEX i3 ON t3 (c2)", "CREATE TABLE t0 (c3 BIGINT)",
+				"ALTER TABLE t3 RENAME COLUMN c1 TO c5", "ALTER TABLE t0 ADD CONSTRAINT f2 FOREIGN KEY (c3) REFERENCES t3 (c2)"}},
 			{Kind: "seq", Stmts: []string{"CREATE TABLE t (a INT, b INT)", "INSERT INTO t VALUES (1,2) AS n(x)"}},
 			{Kind: "seq", Stmts: []string{"PREPARE a FROM 'EXECUTE a'", "EXECUTE a"}},
 			{Kind: "seq", Stmts: []string{"SELECT _utf16'abc'", "SELECT _utf8mb3 X'61E4B8'", "SELECT _utf32 X'0000006100'"}},
@@ -753,7 +814,11 @@ func main() {
 			case k < 6:
 				cs = genSeq(r)
 			case k < 7:
-				cs = genIntroHint(r)
+				if r.Bool() {
+					cs = genIntroHint(r)
+				} else {
+					cs = genJSON(r)
+				}
 			default:
 				cs = genShuffle(r)
 			}
